@@ -63,9 +63,11 @@ func (x *Exec) mapLenQuiet(st *State, mt *types.Map, m *Term) *Term {
 func (x *Exec) mapLoadQuiet(st *State, mt *types.Map, m, k *Term) Value {
 	name, ks := x.mapComps(mt)
 	has := x.mapHasQuiet(st, mt, m, k)
-	return fromComps(mt.Elem(), func(suffix string, s *Sort) *Term {
+	v := fromComps(mt.Elem(), func(suffix string, s *Sort) *Term {
 		return Ite(has, Select(x.objGet(st, name+".val"+suffix, Arr(ks, s), m), k), zeroTerm(s))
 	})
+	x.quietTypeInv(v, st)
+	return v
 }
 
 func (x *Exec) initMap(n *node, t types.Type, r *Term) {
